@@ -158,11 +158,11 @@ func (b *Dac3Box) ChannelInfo() (nrChannels int, chanmap uint16) {
 
 func (b *Dac3Box) Info(w io.Writer, specificBoxLevels, indent, indentStep string) error {
 	bd := newInfoDumper(w, indent, b, -1, 0)
-	bd.write(" - sampleRateCode=%d => sampleRate=%d", b.FSCod, AC3SampleRates[b.FSCod])
+	bd.write(" - sampleRateCode=%d => sampleRate=%d", b.FSCod, b.SamplingFrequency())
 	bd.write(" - bitStreamInformation=%d", b.BSID)
 	bd.write(" - audioCodingMode=%d => channelConfiguration=%q", b.ACMod, AC3acmodChannelTable[b.ACMod])
 	bd.write(" - lowFrequencyEffectsChannelOn=%d", b.LFEOn)
-	bd.write(" - bitRateCode=%d => bitrate=%dkbps", b.BitRateCode, AC3BitrateCodesKbps[b.BitRateCode])
+	bd.write(" - bitRateCode=%d => bitrate=%dkbps", b.BitRateCode, b.BitrateBps()/1000)
 	nrChannels, chanmap := b.ChannelInfo()
 	bd.write(" - nrChannels=%d, chanmap=%04x", nrChannels, chanmap)
 	if b.Reserved != 0 {
@@ -174,12 +174,25 @@ func (b *Dac3Box) Info(w io.Writer, specificBoxLevels, indent, indentStep string
 	return bd.err
 }
 
+// BitrateBps returns the bitrate in bits per second, or 0 for a reserved bit rate code.
 func (b *Dac3Box) BitrateBps() int {
+	if int(b.BitRateCode) >= len(AC3BitrateCodesKbps) {
+		return 0
+	}
 	return int(AC3BitrateCodesKbps[b.BitRateCode]) * 1000
 }
 
+// SamplingFrequency returns the sampling frequency in Hz, or 0 for the reserved sample rate code.
 func (b *Dac3Box) SamplingFrequency() int {
-	return int(AC3SampleRates[b.FSCod])
+	return ac3SampleRate(b.FSCod)
+}
+
+// ac3SampleRate returns the sample rate for fscod, or 0 for the reserved code 3.
+func ac3SampleRate(fscod byte) int {
+	if int(fscod) >= len(AC3SampleRates) {
+		return 0
+	}
+	return AC3SampleRates[fscod]
 }
 
 // GetChannelListFromACMod - get list of channels from acmod byte
